@@ -129,9 +129,13 @@ def analyse(d: Decl, dump_text: str):
         if arm is None:
             out.append({'variant': var, 'validator': v, 'missing': True})
             continue
-        name_ok = re.sub(r'\s+', '', arm['name_arg']) == 'stringify!(%s)' % d.name and '{}' in arm['fmt']
+        na = re.sub(r'\s+', '', arm['name_arg'])
+        # the message names the type: via stringify!(X), a string literal "X", or literally in the text
+        name_ok = (na in ('stringify!(%s)' % d.name, '"%s"' % d.name) and '{}' in arm['fmt']) or re.search(r'\b%s\b' % re.escape(d.name), arm['fmt']) is not None
         out.append({'variant': var, 'validator': v, 'missing': False, 'fmt': arm['fmt'], 'stated': stated_relation(arm['fmt']),
-                    'names_ok': name_ok, 'bound_ok': bound_matches(arm['bound_arg'], v.bound.src), 'bound_arg': arm['bound_arg']})
+                    'names_ok': name_ok,
+                    'bound_ok': bound_matches(arm['bound_arg'], v.bound.src) or (v.bound.value is not None and norm_bound(v.bound.src) in arm['fmt']),
+                    'bound_arg': arm['bound_arg']})
     return out
 
 
